@@ -433,20 +433,73 @@ Definition tree_top_ok_b (ob uq : bool) (t : tree) : bool :=
   && (negb uq || nodupN_b (flatten t)).
 
 (** [c <var+1>[ <name>]\n] *)
-Definition print_record (v : N) (name : option vname) : list N :=
-  [99; 32] ++ dec (v + 1) ++ match name with Some n => 32 :: n | None => [] end ++ nl.
+Definition print_record (r : N * option vname) : list N :=
+  [99; 32] ++ dec (fst r + 1) ++ match snd r with Some n => 32 :: n | None => [] end ++ nl.
 
-(** the lines a variable set is written as (read back with [var_order = true]):
-    with a tree: [c vo <tree>] and one record per named variable;
-    with a linear order only: one record per variable in order *)
+(** the record lines of a variable set: with a tree one record per entry of the names vector
+    (a bare [c <var>] for an unnamed variable), with a linear order only one record per variable
+    in that order *)
+Fixpoint index_from {A} (i : N) (l : list A) : list (N * A) :=
+  match l with
+  | [] => []
+  | x :: r => (i, x) :: index_from (i + 1) r
+  end.
+
+Definition var_records (vs : varset) : list (N * option vname) :=
+  match vs_tree vs with
+  | Some _ => index_from 0 (vs_names vs)
+  | None => map (fun v => (v, nth (N.to_nat v) (vs_names vs) None)) (vs_order vs)
+  end.
+
+(** the lines a variable set is written as (read back with [var_order = true]): [c vo <tree>]
+    if there is a tree, then the records *)
 Definition print_vars (vs : varset) : list N :=
   match vs_tree vs with
-  | Some t =>
-    [99; 32; 118; 111; 32] ++ print_tree true t ++ nl
-    ++ flat_map_i (fun i o => match o with Some n => print_record i (Some n) | None => [] end) 0 (vs_names vs)
-  | None =>
-    flat_map (fun v => print_record v (nth (N.to_nat v) (vs_names vs) None)) (vs_order vs)
+  | Some t => [99; 32; 118; 111; 32] ++ print_tree true t ++ nl
+  | None => []
+  end ++ flat_map print_record (var_records vs).
+
+(** a name a record line reproduces: not empty, no line break, no leading / trailing blank,
+    valid UTF-8 *)
+Definition vname_ok_b (n : vname) : bool :=
+  match n with [] => false | _ => true end && name_ok_b n && valid_utf8 n.
+
+Fixpoint names_distinct_b (l : vnames) : bool :=
+  match l with
+  | [] => true
+  | None :: r => names_distinct_b r
+  | Some n :: r => negb (name_taken r n) && names_distinct_b r
   end.
+
+Fixpoint listN_eqb (a b : list N) : bool :=
+  match a, b with
+  | [], [] => true
+  | x :: a', y :: b' => (x =? y) && listN_eqb a' b'
+  | _, _ => false
+  end.
+
+(** variable sets [print_vars] can write so that the preamble reads them back: what the reader
+    guarantees ([VarSet::check_valid], order = a permutation / the flattened tree) plus printable
+    names *)
+Definition wf_vars_b (vs : varset) : bool :=
+  (vs_len vs <=? max_capacity)
+  && forallb (fun o => match o with Some n => vname_ok_b n | None => true end) (vs_names vs)
+  && names_distinct_b (vs_names vs)
+  && match vs_names vs with
+     | [] => true
+     | l => match last l None with Some _ => true | None => false end
+     end
+  && (lenN (vs_names vs) <=? vs_len vs)
+  && match vs_tree vs with
+     | Some t =>
+       tree_top_ok_b true true t && listN_eqb (vs_order vs) (flatten t)
+       && (vs_len vs =? list_maxN (flatten t) + 1)
+     | None =>
+       match vs_order vs with
+       | [] => match vs_names vs with [] => true | _ => false end
+       | o => (lenN o =? vs_len vs) && nodupN_b o && forallb (fun v => v <? vs_len vs) o
+       end
+     end.
 
 (** [c co <tree>\n] *)
 Definition print_ctree (t : tree) : list N :=
